@@ -104,6 +104,70 @@ def run(ctx):
     return common.run_standard(ctx, sys.modules[__name__])
 
 
+LEAVES = ["x", "table[0]", "table[1]", "aux", "d[0]", "d[1]", "d[2]", "d[3]", "n", "flag"]
+# derived-entry patterns (input d, proposed d): non-finite entries OFF the log-prob path
+_F = [Fraction(21), Fraction(22), Fraction(23), Fraction(24)]
+_G = [Fraction(11), Fraction(12), Fraction(13), Fraction(14)]
+D_PATTERNS = [
+    (_F, _G),
+    (_F, ["nan", "inf", "-inf", Fraction(14)]),
+    (["nan", "inf", "-inf", Fraction(24)], _G),
+    (["inf", "nan", Fraction(23), "-inf"], ["nan", "-inf", "inf", Fraction(14)]),
+    (_F, ["nan", "nan", "nan", "nan"]),
+    (["nan", "nan", "nan", "nan"], _G),
+    (["-inf", "-inf", "inf", "inf"], ["inf", "inf", "-inf", "-inf"]),
+]
+
+
+def _flat(tree):
+    """the whole state tree, leaf by leaf, as special-value strings / exact rationals (ints and bools as integers)"""
+    import numpy as np
+    out = [from_float(int(tree["x"]))]
+    out += [from_float(v) for v in np.asarray(tree["table"], dtype=np.float32)]
+    out += [from_float(tree["aux"])]
+    out += [from_float(v) for v in np.asarray(tree["d"], dtype=np.float32)]
+    out += [from_float(int(tree["n"])), from_float(int(bool(tree["flag"])))]
+    return out
+
+
+def _mh_one():
+    """one(seed, cur, prop, corr, din, dprop): the real mh_step on a dict state that carries, besides the log-prob table,
+    derived float entries d (non-finite in the input and/or in the proposal), an int and a bool leaf, all updated by the
+    proposal; returns info, the returned state tree, the proposed state (update_state through the interface) and u"""
+    import jax, jax.numpy as jnp
+    from liesel.goose.mh import mh_step
+    import liesel.goose as gs
+    model = gs.DictInterface(lambda st: st["table"][st["x"]])
+
+    def one(seed, cur, prop, corr, din, dprop):
+        key = jax.random.PRNGKey(seed)
+        state = {"x": jnp.int32(0), "table": jnp.stack([cur, prop]), "aux": jnp.float32(7.0),
+                 "d": din, "n": jnp.int32(3), "flag": jnp.bool_(False)}
+        proposal = {"x": jnp.int32(1), "d": dprop, "n": jnp.int32(4), "flag": jnp.bool_(True)}
+        info, new = mh_step(key, model, proposal, state, corr)
+        expected = model.update_state(proposal, state)
+        return (info.error_code, info.acceptance_prob, info.position_moved, new["x"], new["aux"],
+                jax.random.uniform(key), new, expected, state)
+    return one
+
+
+def _obs(c, o):
+    """store the observations of one run (o = outputs of _mh_one for this case) in the case dict"""
+    c["code"] = int(o[0])
+    c["p"] = from_float(o[1])
+    c["moved"] = bool(o[2])
+    c["x"] = int(o[3])
+    c["aux_ok"] = float(o[4]) == 7.0
+    c["u"] = Fraction(float(o[5]))
+    c["s_out"], c["s_prop"], c["s_in"] = _flat(o[6]), _flat(o[7]), _flat(o[8])
+    return c
+
+
+def _tree_at(tree, i):
+    import numpy as np
+    return {k: np.asarray(v)[i] for k, v in tree.items()}
+
+
 def generate(ctx):
     import jax, jax.numpy as jnp, numpy as np
     from liesel.goose.mh import mh_step
@@ -139,35 +203,30 @@ def generate(ctx):
         if not special and rnd.random() < 0.6:
             seeds = seeds[:1] + ([seeds[1]] if rnd.random() < 0.3 else [])
         for s in seeds:
-            cases.append({"cur": cur, "prop": prop, "corr": corr, "seed": s})
+            # derived entries of the state: forced patterns on every other case, else a random class per entry
+            if len(cases) % 2 == 0:
+                din, dprop = D_PATTERNS[(len(cases) // 2) % len(D_PATTERNS)]
+            else:
+                pick = lambda base: [rnd.choice(SPECIALS) if rnd.random() < 0.4 else Fraction(base + j) for j in range(4)]
+                din, dprop = pick(21), pick(11)
+            cases.append({"cur": cur, "prop": prop, "corr": corr, "seed": s, "din": list(din), "dprop": list(dprop)})
 
     # ---- run the real mh_step ----
-    model = gs.DictInterface(lambda st: st["table"][st["x"]])
-
-    def one(seed, cur, prop, corr):
-        key = jax.random.PRNGKey(seed)
-        state = {"x": jnp.int32(0), "table": jnp.stack([cur, prop]), "aux": jnp.float32(7.0)}
-        info, new = mh_step(key, model, {"x": jnp.int32(1)}, state, corr)
-        return (info.error_code, info.acceptance_prob, info.position_moved, new["x"], new["aux"],
-                jax.random.uniform(key))
-
+    one = _mh_one()
     f32 = lambda v: np.float32(to_float(v))
     seeds = jnp.array([c["seed"] for c in cases], dtype=jnp.uint32)
     curs = jnp.array([f32(c["cur"]) for c in cases])
     props = jnp.array([f32(c["prop"]) for c in cases])
     corrs = jnp.array([f32(c["corr"]) for c in cases])
-    outs = jax.jit(jax.vmap(one))(seeds, curs, props, corrs)
-    outs = [np.asarray(o) for o in outs]
+    dins = jnp.array([[f32(v) for v in c["din"]] for c in cases], dtype=jnp.float32)
+    dprops = jnp.array([[f32(v) for v in c["dprop"]] for c in cases], dtype=jnp.float32)
+    outs = jax.jit(jax.vmap(one))(seeds, curs, props, corrs, dins, dprops)
+    outs = [({k: np.asarray(v) for k, v in o.items()} if isinstance(o, dict) else np.asarray(o)) for o in outs]
     # eager on a sub-sample (same function, no jit / vmap)
     eager_idx = list(range(0, len(cases), max(1, len(cases) // (60 if ctx.quick else 400))))
     n_eager_diff = 0
     for i, c in enumerate(cases):
-        c["code"] = int(outs[0][i])
-        c["p"] = from_float(outs[1][i])
-        c["moved"] = bool(outs[2][i])
-        c["x"] = int(outs[3][i])
-        c["aux_ok"] = float(outs[4][i]) == 7.0
-        c["u"] = Fraction(float(outs[5][i]))
+        _obs(c, [(_tree_at(o, i) if isinstance(o, dict) else o[i]) for o in outs])
         # model-side log ratio under IEEE rules, exactness check, jnp.exp oracle
         l = np.float32(np.float32(f32(c["prop"]) - f32(c["cur"])) + f32(c["corr"]))
         fins = [v for v in (c["prop"], c["cur"], c["corr"]) if not isinstance(v, str)]
@@ -178,8 +237,9 @@ def generate(ctx):
         c["e"] = from_float(e)
     for i in eager_idx:
         c = cases[i]
-        o = one(jnp.uint32(c["seed"]), jnp.float32(f32(c["cur"])), jnp.float32(f32(c["prop"])), jnp.float32(f32(c["corr"])))
-        eq = (int(o[0]) == c["code"] and bool(o[2]) == c["moved"] and int(o[3]) == c["x"]
+        o = one(jnp.uint32(c["seed"]), jnp.float32(f32(c["cur"])), jnp.float32(f32(c["prop"])), jnp.float32(f32(c["corr"])),
+                jnp.array([f32(v) for v in c["din"]], dtype=jnp.float32), jnp.array([f32(v) for v in c["dprop"]], dtype=jnp.float32))
+        eq = (int(o[0]) == c["code"] and bool(o[2]) == c["moved"] and int(o[3]) == c["x"] and _flat(o[6]) == c["s_out"]
               and (from_float(o[1]) == c["p"] or abs(float(o[1]) - float(c["p"])) <= 1e-6))
         if not eq:
             n_eager_diff += 1
@@ -191,10 +251,14 @@ def generate(ctx):
         ctx.hist("u==0" if c["u"] == 0 else ("u max" if c["u"] >= 1 - Fraction(1, 2 ** 23) else "u random"))
         ctx.hist(f"code={c['code']}")
         ctx.hist("accepted" if c["moved"] else "rejected")
-    distinct = {(str(c["cur"]), str(c["prop"]), str(c["corr"]), c["seed"]) for c in cases}
+        nf = lambda l: any(isinstance(v, str) for v in l)
+        ctx.hist("state.%s derived entries non-finite: input=%s proposed=%s" % ("accepted" if c["moved"] else "rejected", nf(c["din"]), nf(c["dprop"])))
+    distinct = {(str(c["cur"]), str(c["prop"]), str(c["corr"]), c["seed"], str(c["din"]), str(c["dprop"])) for c in cases}
     ctx.count(len(cases), len(distinct))
     ctx.cov["rule"] = ("all 125 combinations of {nan,-inf,+inf,0,finite} for (current, proposed, correction) x key strata "
-                       "{random, uniform==0, uniform max} + random dyadic triples; distinct = distinct (cur,prop,corr,seed)")
+                       "{random, uniform==0, uniform max} + random dyadic triples, each on a dict state with 4 derived float entries off the "
+                       "log-prob path (forced / random patterns of nan, +inf, -inf in the input and in the proposal), an int and a bool "
+                       "leaf, the whole returned tree compared leaf by leaf; distinct = distinct (cur,prop,corr,seed,d_in,d_prop)")
     for c in cases[:2] + [c for c in cases if c["u"] == 0 and c["p"] == 0][:2]:
         ctx.sample({k: str(v) for k, v in c.items()})
     # ---- kernel level: RWKernel / MHKernel / IWLSKernel transitions ----
@@ -230,11 +294,13 @@ Proof. vm_compute. reflexivity. Qed.
         rows = []
         for i in idxs:
             c = cases[i]
-            rows.append("(mkCase " + " ".join([xlit(c["cur"]), xlit(c["prop"]), xlit(c["corr"]), xlit(c["u"]), xlit(c["e"]),
-                                              natlit(c["code"]), xlit(c["p"]), blit(c["moved"]), natlit(c["x"]), blit(c["aux_ok"])]) + ")")
+            base = "(mkCase " + " ".join([xlit(c["cur"]), xlit(c["prop"]), xlit(c["corr"]), xlit(c["u"]), xlit(c["e"]),
+                                          natlit(c["code"]), xlit(c["p"]), blit(c["moved"]), natlit(c["x"]), blit(c["aux_ok"])]) + ")"
+            rows.append(f"(mkCaseSt {base} {lst([xlit(v) for v in c['s_in']])} {lst([xlit(v) for v in c['s_prop']])} "
+                        f"{lst([xlit(v) for v in c['s_out']])})")
         txt = HEADER + f"""
-Definition cases : list mhcase := {lst(rows)}.
-Lemma shard_ok : forallb (agrees Lt) cases = true.
+Definition cases : list mhcase_st := {lst(rows)}.
+Lemma shard_ok : forallb (agrees_st Lt) cases = true.
 Proof. vm_compute. reflexivity. Qed.
 """
         shards.append((ctx.new_shard(txt), idxs))
@@ -246,7 +312,7 @@ def diagnose(ctx, path, idxs, cases):
     if "kagrees" in open(path).read():
         txt += "Eval vm_compute in (failing (kagrees Lt) kcases).\n"
     else:
-        txt += "Eval vm_compute in (failing (agrees Lt) cases).\n"
+        txt += "Eval vm_compute in (failing (agrees_st Lt) cases).\n"
     ok, out = ctx.coq_eval(txt)
     return [idxs[j] for j in common.parse_nat_list(out) if j < len(idxs)]
 
@@ -274,6 +340,12 @@ def oracle(c):
         return f"error code {c['code']} on a defined ratio"
     if c["x"] != (1 if c["moved"] else 0) or not c["aux_ok"]:
         return "returned state is neither the input state (rejection) nor the proposed state (acceptance)"
+    want_s = c["s_prop"] if c["moved"] else c["s_in"]
+    bad = [f"{LEAVES[j]}: returned {c['s_out'][j]}, expected {want_s[j]}" for j in range(len(want_s)) if c["s_out"][j] != want_s[j]]
+    if bad or len(c["s_out"]) != len(want_s):
+        return ("returned model state is not " + ("the state updated with the proposal (accepted move)" if c["moved"] else
+                "the input state (rejected move)") + " entry by entry: " + "; ".join(bad)
+                + f"  [input state {[str(v) for v in c['s_in']]}, proposed state {[str(v) for v in c['s_prop']]}]")
     return None
 
 
@@ -312,19 +384,18 @@ def replay(rp) -> int:
         v = str(v)
         return v if v in SPECIALS else Fraction(v)
 
-    c = {"cur": val(c["cur"]), "prop": val(c["prop"]), "corr": val(c["corr"]), "seed": int(c["seed"])}
-    model = gs.DictInterface(lambda st: st["table"][st["x"]])
-    key = jax.random.PRNGKey(c["seed"])
+    def vlist(l, default):
+        if isinstance(l, str):
+            import ast
+            l = ast.literal_eval(l) if l.startswith("[") and "Fraction" not in l else None
+        return [val(v) for v in l] if l else list(default)
+
+    c = {"cur": val(c["cur"]), "prop": val(c["prop"]), "corr": val(c["corr"]), "seed": int(c["seed"]),
+         "din": vlist(c.get("din"), D_PATTERNS[0][0]), "dprop": vlist(c.get("dprop"), D_PATTERNS[0][1])}
     f32 = lambda v: np.float32(to_float(v))
-    state = {"x": jnp.int32(0), "table": jnp.stack([jnp.float32(f32(c["cur"])), jnp.float32(f32(c["prop"]))]),
-             "aux": jnp.float32(7.0)}
-    info, new = mh_step(key, model, {"x": jnp.int32(1)}, state, jnp.float32(f32(c["corr"])))
-    c["code"] = int(info.error_code)
-    c["p"] = from_float(info.acceptance_prob)
-    c["moved"] = bool(info.position_moved)
-    c["x"] = int(new["x"])
-    c["aux_ok"] = float(new["aux"]) == 7.0
-    c["u"] = Fraction(float(jax.random.uniform(key)))
+    o = _mh_one()(jnp.uint32(c["seed"]), jnp.float32(f32(c["cur"])), jnp.float32(f32(c["prop"])), jnp.float32(f32(c["corr"])),
+                  jnp.array([f32(v) for v in c["din"]], dtype=jnp.float32), jnp.array([f32(v) for v in c["dprop"]], dtype=jnp.float32))
+    _obs(c, o)
     r = oracle(c)
     print({k: str(v) for k, v in c.items()})
     if r:
